@@ -3,6 +3,9 @@
      pyfmt <value> <width> <fill> <fc>           -> "T c1,c2,..."
      uchar <fixed> <w> <s> <value> <width> <pad> -> "T ..." | OverflowError | ValueError | UnicodeDecodeError
      pychar <value> <width> <pad>                -> "T ..." | OverflowError
+     ucharb <fixed> <w> <s> <value> <width> <pad> -> same, byte-level model (UTF-8 encode/decode, chars[256])
+     utf8enc <v>                                 -> bytes of the C encoder branches | utf8ref <cp> -> RFC 3629 bytes
+     utf8dec <bytes>                             -> "T cps" | UnicodeDecodeError
      parse <b> <codes>                           -> value
      tables                                      -> the three tables *)
 let string_of_err = function
@@ -15,6 +18,7 @@ let string_of_cres = function
   | CText l -> "T " ^ string_of_zlist l
   | COverflowError -> "OverflowError" | CValueError -> "ValueError"
   | CUnicodeDecodeError -> "UnicodeDecodeError" | CAbort -> "CRASH"
+  | CBufferOverflow -> "BufferOverflow"
 let z = z_of_string
 let handle = function
   | ["fmt"; w; s; v; width; pad; fc] ->
@@ -22,6 +26,12 @@ let handle = function
   | ["pyfmt"; v; width; fill; fc] -> "T " ^ string_of_zlist (py_format_int (z v) (z width) (z fill) (z fc))
   | ["uchar"; fx; w; s; v; width; pad] ->
       string_of_cres (uchar_to_unicode (bool_of_string fx) (z w) (bool_of_string s) (z v) (z width) (z pad))
+  | ["ucharb"; fx; w; s; v; width; pad] ->
+      string_of_cres (uchar_to_unicode_b (bool_of_string fx) (z w) (bool_of_string s) (z v) (z width) (z pad))
+  | ["utf8enc"; v] -> string_of_zlist (utf8_enc_c (z v))
+  | ["utf8ref"; v] -> string_of_zlist (utf8_ref (z v))
+  | ["utf8dec"; l] -> (match utf8_decode (if l = "-" then [] else zlist_of_string l) with
+                       | Some cps -> "T " ^ string_of_zlist cps | None -> "UnicodeDecodeError")
   | ["pychar"; v; width; pad] -> string_of_cres (py_format_char (z v) (z width) (z pad))
   | ["parse"; b; l] -> string_of_z (parse_base (z b) (zlist_of_string l))
   | ["bufsize"; w] -> string_of_z (buf_size (z w))
